@@ -167,6 +167,11 @@ impl<T> CacheAlignedVec<T> {
         self.len = len;
     }
 
+    /// Alignment of the buffer: the cache line, or the element's own alignment if that is larger
+    fn buffer_align() -> usize {
+        CACHE_LINE_SIZE.max(mem::align_of::<T>())
+    }
+
     /// Reallocate the vector with cache-aligned memory
     fn reallocate(&mut self, new_capacity: usize) -> Result<()> {
         if new_capacity == 0 {
@@ -185,7 +190,7 @@ impl<T> CacheAlignedVec<T> {
             align_to_cache_line(new_capacity * mem::size_of::<T>()) / mem::size_of::<T>();
 
         let layout =
-            Layout::from_size_align(aligned_capacity * mem::size_of::<T>(), CACHE_LINE_SIZE)
+            Layout::from_size_align(aligned_capacity * mem::size_of::<T>(), Self::buffer_align())
                 .map_err(|_| {
                     ZiporaError::invalid_data("Invalid layout for cache-aligned allocation")
                 })?;
@@ -196,7 +201,7 @@ impl<T> CacheAlignedVec<T> {
         } else {
             // Reallocation - try to preserve NUMA locality
             let old_layout =
-                Layout::from_size_align(self.capacity * mem::size_of::<T>(), CACHE_LINE_SIZE)
+                Layout::from_size_align(self.capacity * mem::size_of::<T>(), Self::buffer_align())
                     .unwrap();
 
             let new_ptr = numa_alloc(layout, self.numa_node)?;
@@ -228,7 +233,7 @@ impl<T> Drop for CacheAlignedVec<T> {
         // Deallocate memory (nothing was allocated for zero-sized elements)
         if self.capacity > 0 && mem::size_of::<T>() > 0 {
             let layout =
-                Layout::from_size_align(self.capacity * mem::size_of::<T>(), CACHE_LINE_SIZE)
+                Layout::from_size_align(self.capacity * mem::size_of::<T>(), Self::buffer_align())
                     .unwrap();
 
             unsafe {
